@@ -24,6 +24,7 @@ pub const DEF: PropDef = PropDef {
 };
 
 pub const SUBS: &[SubDef] = &[
+    SubDef { prop: "C17", name: "sigalg_debug", oracle: sigalg_debug },
     SubDef { prop: "C17", name: "names", oracle: names },
     SubDef { prop: "C17", name: "conversions", oracle: conversions },
 ];
@@ -96,7 +97,61 @@ fn run(ctx: &Ctx) {
     }
     ctx.run_enum("names", names, true, "every integer of every registry type's domain (14 x 256 + 4 x 65536 values), Display and Debug", cases.into_iter());
     let cases = (0..=65535u32).map(|v| vec![(v >> 8) as u8, v as u8]);
+    ctx.run_enum("sigalg_debug", sigalg_debug, true, "all 65536 code points inside a signature_algorithms extension, Debug text (the place where the crate prints scheme / hash / signature names together)", cases);
+    ctx.run_fn("variant_tags", true, "every TlsExtension variant converted to its TlsExtensionType", |obs| {
+        use vmodel::model::*;
+        let seed = [7u8; 64];
+        for (i, ty) in KNOWN_EXT_TYPES.iter().enumerate() {
+            let mut t = Tape::new(&seed);
+            let m = gen_ext_known(&mut t, i, 64);
+            let bytes = m.to_bytes();
+            obs.eval();
+            let tag = guard("TlsExtensionType::from", || parse_tls_extension(&bytes).map(|(_, e)| TlsExtensionType::from(&e).0).map_err(|e| format!("{:?}", e.map(|x| x.code))))?;
+            ensure!(tag == Ok(*ty), format!("C17:variant-tag:type={}", ty), "extension type {} ({}) decodes to a variant whose TlsExtensionType is {:?}", ty, m.name(), tag);
+            obs.nontrivial(*ty as u64);
+        }
+        obs.sample(json!({"variants_checked": KNOWN_EXT_TYPES.len()}));
+        Ok(())
+    });
+    let cases = (0..=65535u32).map(|v| vec![(v >> 8) as u8, v as u8]);
     ctx.run_enum("conversions", conversions, true, "all 65536 u16 values (and their low bytes as u8 values)", cases);
+}
+
+/// parameter tape: [value_hi, value_lo]: Debug of TlsExtension::SignatureAlgorithms([v]) must show the scheme's name when it has one,
+/// and otherwise hash = high byte and signature = low byte (by name or by a numeric fallback containing the byte's value)
+fn sigalg_debug(t: &mut Tape, obs: &mut Obs) -> R {
+    let v = t.u16();
+    let text = guard("Debug for TlsExtension", || format!("{:?}", TlsExtension::SignatureAlgorithms(vec![v])))?;
+    let sig = format!("C17:sigalg-debug:value={:#06x}", v);
+    if let Some(name) = iana::SIGNATURE_SCHEME.name_of(v as u32) {
+        obs.nontrivial(v as u64);
+        obs.class("named-scheme");
+        ensure!(text.contains(name), sig, "Debug of signature_algorithms [{:#06x}] is {:?}; the scheme's name is {}", v, text, name);
+        if obs.wants_sample() {
+            obs.sample(json!({"value": v, "debug": text}));
+        }
+        return Ok(());
+    }
+    let (hi, lo) = ((v >> 8) as u32, (v & 0xff) as u32);
+    let h = iana::HASH_ALG.name_of(hi).map(|s| s.to_string()).unwrap_or_else(|| hi.to_string());
+    let s = iana::SIGN_ALG.name_of(lo).map(|s| s.to_string()).unwrap_or_else(|| lo.to_string());
+    // expected shape: "...(<hash name or fallback containing hi>,<sign name or fallback containing lo>)..."
+    let inner = text.split("HashSign(").nth(1).unwrap_or("");
+    let (hpart, spart) = match inner.split_once(',') {
+        Some((a, b)) => (a.to_string(), b.to_string()),
+        None => (String::new(), String::new()),
+    };
+    obs.class("hash-sign-pair");
+    ensure!(hpart.contains(&h), sig, "Debug of signature_algorithms [{:#06x}] is {:?}: the hash part must show {} (high byte {})", v, text, h, hi);
+    ensure!(spart.contains(&s), sig, "Debug of signature_algorithms [{:#06x}] is {:?}: the signature part must show {} (low byte {})", v, text, s, lo);
+    if iana::SIGN_ALG.name_of(lo).is_none() {
+        // a fallback must not print the name of a different registered algorithm
+        ensure!(!iana::SIGN_ALG.consts.iter().any(|c| spart.starts_with(c.0)), sig, "Debug of [{:#06x}] prints {:?} for unregistered signature algorithm {}", v, spart, lo);
+    }
+    if iana::HASH_ALG.name_of(hi).is_none() {
+        ensure!(!iana::HASH_ALG.consts.iter().any(|c| hpart.starts_with(c.0)), sig, "Debug of [{:#06x}] prints {:?} for unregistered hash algorithm {}", v, hpart, hi);
+    }
+    Ok(())
 }
 
 fn is_ident(s: &str) -> bool {
